@@ -436,9 +436,14 @@ func (rp *RepData) useCachedSegments(vodFS fs.FS, assetPath string, st *m.Segmen
 		return fmt.Errorf("cached data for unsupported type of representation")
 	}
 	for _, seg := range segs {
-		_, err := fs.Stat(vodFS, path.Join(assetPath, replaceTimeAndNr(rp.MediaURI, seg.StartTime, seg.Nr)))
+		info, err := fs.Stat(vodFS, path.Join(assetPath, replaceTimeAndNr(rp.MediaURI, seg.StartTime, seg.Nr)))
 		if err != nil {
 			return fmt.Errorf("cached segment: %w", err)
+		}
+		// Only the first and the last segment are read again. A file of another size than at the time of the scan
+		// tells that an inner segment has changed (or that the metadata file was written without sizes).
+		if info.Size() != seg.Size {
+			return fmt.Errorf("cached segment %d has size %d but the file has %d", seg.Nr, seg.Size, info.Size())
 		}
 	}
 	// Read the first and last segment as in a scan and compare
@@ -1115,7 +1120,7 @@ func (r *RepData) readMP4Segment(vodFS fs.FS, assetPath string, time uint64, nr 
 		r.DefaultSampleDuration = lastFragTraf.Tfhd.DefaultSampleDuration
 	}
 	endTime := lastFragTraf.Tfdt.BaseMediaDecodeTime() + lastFragTraf.Trun.Duration(r.DefaultSampleDuration)
-	seg = Segment{StartTime: t, EndTime: endTime, Nr: nr}
+	seg = Segment{StartTime: t, EndTime: endTime, Nr: nr, Size: int64(len(data))}
 	commonSampleDur, err := s.CommonSampleDuration(r.initSeg.Moov.Mvex.Trex)
 	if err == nil {
 		seg.CommonSampleDur = commonSampleDur
@@ -1138,13 +1143,13 @@ func (r *RepData) readThumbSegment(vodFS fs.FS, assetPath string, nr, startNr ui
 	uri := replaceTimeAndNr(r.MediaURI, 0, nr)
 	repPath := path.Join(assetPath, uri)
 
-	_, err := fs.Stat(vodFS, repPath)
+	info, err := fs.Stat(vodFS, repPath)
 	if err != nil {
 		return seg, err
 	}
 	deltaNr := nr - startNr
 	startTime := uint64(deltaNr) * dur
-	return Segment{StartTime: startTime, EndTime: startTime + dur, Nr: nr}, nil
+	return Segment{StartTime: startTime, EndTime: startTime + dur, Nr: nr, Size: info.Size()}, nil
 }
 
 func replaceIdentifiers(r *m.RepresentationType, str string) string {
@@ -1169,6 +1174,7 @@ type Segment struct {
 	StartTime       uint64 `json:"startTime"`
 	EndTime         uint64 `json:"endTime"`
 	Nr              uint32 `json:"nr"`
+	Size            int64  `json:"size,omitempty"` // size of the segment file when it was scanned
 	CommonSampleDur uint32 `json:"-"`
 }
 
